@@ -52,6 +52,7 @@ class Ctx:
                               trace_roots=seams.cflib_file_roots(),
                               max_steps=self.knobs.get('max_steps', 3_000_000),
                               max_time=self.knobs.get('max_time', 3600.0),
+                              max_no_progress=self.knobs.get('max_no_progress', 400_000),
                               keep_log=keep_log,
                               jitter_rng=random.Random(H(self.seed, 'jitter')))
         from world.faults import Faults
@@ -125,6 +126,13 @@ def hang_signature(verdict):
     kind, info = verdict
     site = ''
     for t in info or []:
+        if kind == 'livelock':
+            if t['state'] == 'runnable':
+                s2 = cflib_site(t.get('stack', ''))
+                if s2:
+                    site = s2
+                    break
+            continue
         if t['thread'] == 'main' or t['thread'].startswith('bounded:'):
             s2 = cflib_site(t.get('stack', ''))
             if s2:
@@ -132,7 +140,7 @@ def hang_signature(verdict):
                 if t['thread'] == 'main':
                     break
     msg = '%s: threads %s' % (kind, [(t['thread'], t['waiting_on']) for t in (info or [])])
-    return ('%s @%s' % ('hang' if kind == 'timeout' else 'deadlock', site)), msg
+    return ('%s @%s' % ({'timeout': 'hang', 'livelock': 'livelock'}.get(kind, 'deadlock'), site)), msg
 
 
 def execute_plan(check, plan, keep_log=False):
@@ -250,29 +258,42 @@ def _worker(check, wid, nworkers, directed, base_seed, max_random, deadline, wfd
         out.write(json.dumps(slim, default=repr) + '\n')
         out.flush()
 
+    def run(plan):
+        res = run_in_child(check, plan)
+        if res.get('harness_error') and 'wall timeout' in str(res['harness_error']):
+            # the machine may be overloaded: a wall-clock kill says nothing about the property; try once more, alone
+            res = run_in_child(check, plan, timeout=240)
+        return res
+
     for i in range(wid, len(directed), nworkers):
         if time.time() > deadline:
             break
         plan = directed[i]
-        emit('directed', plan, run_in_child(check, plan))
+        emit('directed', plan, run(plan))
     i = wid
     while i < max_random and time.time() < deadline:
         plan = check.gen(base_seed + i)
-        emit('random', plan, run_in_child(check, plan))
+        emit('random', plan, run(plan))
         i += nworkers
     out.close()
     os._exit(0)
 
 
 def summarise(plan):
-    s = {k: plan[k] for k in ('seed', 'scenario', 'knobs') if k in plan}
-    ops = plan.get('ops')
-    if ops is not None:
-        s['ops'] = ops if len(json.dumps(ops, default=repr)) < 1500 else ops[:6] + ['... %d more' % (len(ops) - 6)]
-    for k in ('faults', 'device'):
-        if k in plan:
-            v = plan[k]
-            s[k] = v if len(json.dumps(v, default=repr)) < 800 else '(%d bytes of json)' % len(json.dumps(v, default=repr))
+    """A readable, size-bounded rendering of a plan for evidence samples."""
+    s = {}
+    for k, v in plan.items():
+        if k in ('sched',):
+            continue
+        js = json.dumps(v, default=repr)
+        if len(js) <= 1500:
+            s[k] = v
+        elif isinstance(v, list):
+            s[k] = v[:4] + ['... %d more' % (len(v) - 4)]
+            if len(json.dumps(s[k], default=repr)) > 3000:
+                s[k] = '(%d items, %d bytes of json)' % (len(v), len(js))
+        else:
+            s[k] = '(%d bytes of json)' % len(js)
     return s
 
 
